@@ -100,4 +100,31 @@ theorem ratrecCore_sound (x y N D n d : Int) (h : ratrecCore x y N D = .ok (n, d
         exact ⟨hN, hD, hy, h4, by omega, by omega, by omega, hc.1, hc.2⟩
       · simp at h
 
+/-- the fuel of `ratrecCore` always suffices: it never returns `Err.fuel` -/
+theorem ratrecCore_no_fuel (x y N D : Int) : ratrecCore x y N D ≠ .error .fuel := by
+  unfold ratrecCore
+  by_cases hv : N < 0 ∨ D ≤ 0 ∨ 2 * N * D ≥ y
+  · rw [if_pos hv]; simp
+  · rw [if_neg hv]
+    have hN : 0 ≤ N := by omega
+    have hD : 0 < D := by omega
+    have hND : 0 ≤ 2 * N * D := by positivity
+    have hypos : 0 < y := by omega
+    have hNy : N < y := by nlinarith
+    have hfirst : ratrecLoop N (y.toNat + 2) x y 1 0 = ratrecLoop N (y.toNat + 1) y (x % y) 0 1 := by
+      simp only [ratrecLoop]
+      rw [if_pos (by omega)]
+      simp
+    have hinv : RatInv x y y (x % y) 0 1 := by
+      refine ⟨Int.emod_nonneg _ (by omega), Int.emod_lt_of_pos _ hypos, Or.inr ⟨le_refl _, by omega⟩,
+        by simp, ?_⟩
+      have : x % y - x * 1 = -(y * (x / y)) := by
+        have := Int.mul_ediv_add_emod x y; linarith
+      rw [this]; exact Int.dvd_neg.mpr (Int.dvd_mul_right _ _)
+    obtain ⟨n', d', hl, _⟩ := ratrecLoop_spec x y N hN (y.toNat + 1) y (x % y) 0 1 hinv
+      (by have := Int.emod_lt_of_pos x hypos; have := Int.emod_nonneg x (by omega : y ≠ 0); omega)
+    rw [hfirst, hl]
+    simp only []
+    split <;> split <;> simp
+
 end MpycV.NumTh
